@@ -90,6 +90,9 @@ def _deltas(kind, tier, seed):
         if tier == "thorough":
             n = 1 - 1e-12
             out.append([1.0, 0.0, 0.0, 0.0, n, 0.0])
+    # sub-nanometre increments (late Gauss-Newton iterations produce them)
+    out.append([8e-10, -6e-10, 5e-10, 3e-10, -4e-10, 2e-10][:c])
+    out.append(([0.0] * (c - 1)) + [7e-10])
     # increments with translations of thousands of units (far-apart initial guesses produce them)
     out.append(([2500.0, -1800.0, 900.0][: G.DIM[kind]] + [0.1, -0.2, 0.05])[:c] if kind == "SE3" else ([2500.0, -1800.0, 900.0][: G.DIM[kind]] + [0.3])[:c])
     if kind in ("R2", "R3"):
@@ -377,6 +380,13 @@ def _eval_inner(case, c):
         c.phys("p (+) e = p", kind, pa + ident, a, sc)
         c.phys("p (-) e = p", kind, pa - ident, a, sc)
         c.phys("p (-) p = e", kind, pa - pa, e, sc)
+        # the result of an operation is a pose of its own, also when the other operand is neutral
+        for what, r_ in (("p (+) e", pa + ident), ("p (-) e", pa - ident), ("p [+] 0", pa + np.zeros(G.COMPACT[kind]))):
+            c.nops += 1
+            np.asarray(r_)[0] += 1.0
+            if _stored(pa) != a0:
+                c.msgs.append("writing into the result of %s changed p (the result aliases the operand)" % what)
+                np.asarray(pa)[...] = a0
         if kind in ("SE2", "SE3"):
             c.arr("to_matrix", pa.to_matrix(), G.to_mat(kind, a), sc)
         if kind == "SE2":
@@ -487,6 +497,15 @@ def _eval_inner(case, c):
         exp = G.compose(kind, a, ex)
         got = pa + np.array(d, dtype=float)
         c.phys("p [+] delta = p (+) Exp(delta)", kind, got, exp, sc)
+        if any(d) and max(abs(x) for x in d) < 1e-8:
+            # sub-nanometre increments still move the pose: compared at 1e-13 x scale (1e-4 of the increment), not at the usual 1e-9
+            q3 = pa.copy()
+            q3 += np.array(d, dtype=float)
+            for what, r_ in (("p [+] tiny delta", got), ("p += tiny delta", q3)):
+                dd = G.phys_diff(kind, I.comps(r_), exp)
+                c.nops += 1
+                if dd > 1e-13 * sc:
+                    c.msgs.append("%s: result differs from p (+) Exp(delta) by %.3g (> %.3g); delta=%r" % (what, dd, 1e-13 * sc, d))
         c.phys("p [+] delta vs impl p (+) Exp(delta)", kind, got, I.comps(pa + I.mk_pose(kind, ex)), sc)
         q = pa
         darr = np.array(d, dtype=float)
